@@ -12,7 +12,7 @@ import (
 )
 
 func init() {
-	core.Register(core.Check{ID: "C05", Level: "exploration", Run: func(c *core.Ctx) { runC05(c); reentrancyPass(c, "C05") }})
+	core.Register(core.Check{ID: "C05", Level: "exploration", Run: func(c *core.Ctx) { runC05(c); historyPass(c, "C05"); reentrancyPass(c, "C05") }})
 }
 
 type c05case struct {
